@@ -54,6 +54,21 @@ def evaluate(case: Dict[str, Any]) -> Dict[str, Any]:
         if x0_kind is not None and run.exc is not None:
             out["tags"].append("perturbed-restart-refused")
             break
+        if "C02" in case["monitors"] and np.isfinite(np.asarray(kw["x0"], dtype=float)).all() and run.nonfinite_points():
+            out["prop"].append({"what": "a point with NaN / infinite coordinates was handed to the user's functions or returned (finite start; such a "
+                                        "point is in no box)" + (" (after restart)" if li > 0 else ""), "key": "",
+                                "detail": {"bounds_spelling": desc["features"].get("bounds_spelling")}})
+            break
+        if run.nonfinite() and p.desc.get("family") == "nan_edge" and run.result is not None:
+            # an objective that is NaN beyond the edge of its domain (by construction finite at the start): no replay (the model's
+            # oracle tables hold finite values), but the monitors apply — a NaN trial value is not lower than anything, so no accepted
+            # iterate may have one
+            out["tags"].append("nan_edge_objective_hit_nan")
+            for m in case["monitors"]:
+                if m == "C03":
+                    for v in MONITORS[m](run, p, kw):
+                        out["prop"].append(dict(v))
+            break
         if run.nonfinite():
             # overflow / nan in the user's functions: outside the quantifier of every property
             out["tags"].append("nonfinite-objective-domain")
